@@ -1,5 +1,5 @@
 // auto-generated: "lalrpop 0.23.1"
-// sha3: c107c132612d6f27b74bedac6a79e3ea3545f7ec6c8e2717e96416de02046355
+// sha3: 7de3e6e0bc6010004f28ca22709df79e15ebe5a097fddd802bc49a829d31ea13
 #[allow(unused_extern_crates)]
 extern crate lalrpop_util as __lalrpop_util;
 #[allow(unused_imports)]
@@ -9,7 +9,7 @@ extern crate alloc;
 
 #[rustfmt::skip]
 #[allow(explicit_outlives_requirements, non_snake_case, non_camel_case_types, unused_mut, unused_variables, unused_imports, unused_parens, clippy::needless_lifetimes, clippy::type_complexity, clippy::needless_return, clippy::too_many_arguments, clippy::match_single_binding, clippy::clone_on_copy, clippy::unit_arg)]
-mod __parse__P {
+mod __parse__S {
 
     #[allow(unused_extern_crates)]
     extern crate lalrpop_util as __lalrpop_util;
@@ -22,66 +22,71 @@ mod __parse__P {
     pub(crate) enum __Symbol<'input>
      {
         Variant0(&'input str),
-        Variant1(Vec<&'input str>),
+        Variant1(String),
     }
     const __ACTION: &[i8] = &[
         // State 0
-        -2, -2, -2, -2, -2, -2,
+        3, 4, 5, 6, 7, 8, 9, 10,
         // State 1
-        6, 7, 8, 9, 4, 5,
+        0, 0, 0, 0, 0, 0, 0, 0,
         // State 2
-        -1, -1, -1, -1, -1, -1,
+        0, 0, 0, 0, 0, 0, 0, 0,
         // State 3
-        -7, -7, -7, -7, -7, -7,
+        0, 0, 0, 0, 0, 0, 0, 0,
         // State 4
-        -6, -6, -6, -6, -6, -6,
+        0, 0, 0, 0, 0, 0, 0, 0,
         // State 5
-        -5, -5, -5, -5, -5, -5,
+        0, 0, 0, 0, 0, 0, 0, 0,
         // State 6
-        -4, -4, -4, -4, -4, -4,
+        0, 0, 0, 0, 0, 0, 0, 0,
         // State 7
-        -3, -3, -3, -3, -3, -3,
+        0, 0, 0, 0, 0, 0, 0, 0,
         // State 8
-        -8, -8, -8, -8, -8, -8,
+        0, 0, 0, 0, 0, 0, 0, 0,
+        // State 9
+        0, 0, 0, 0, 0, 0, 0, 0,
     ];
     fn __action(state: i8, integer: usize) -> i8 {
-        __ACTION[(state as usize) * 6 + integer]
+        __ACTION[(state as usize) * 8 + integer]
     }
     const __EOF_ACTION: &[i8] = &[
         // State 0
-        -2,
+        0,
         // State 1
         -9,
         // State 2
         -1,
         // State 3
-        -7,
+        -2,
         // State 4
-        -6,
-        // State 5
-        -5,
-        // State 6
-        -4,
-        // State 7
         -3,
+        // State 5
+        -4,
+        // State 6
+        -5,
+        // State 7
+        -6,
         // State 8
+        -7,
+        // State 9
         -8,
     ];
     fn __goto(state: i8, nt: usize) -> i8 {
         match nt {
             0 => 1,
-            1 => 2,
             _ => 0,
         }
     }
     #[allow(clippy::needless_raw_string_hashes)]
     const __TERMINAL: &[&str] = &[
-        r###"r#"[0-9]+(\\.[0-9]+)?"#"###,
-        r###"r#"[A-Z][a-z]*"#"###,
-        r###"r#"[a-z]+"#"###,
-        r###"r#"\\p{Han}+"#"###,
-        r###""else""###,
-        r###""if""###,
+        r###""k0""###,
+        r###""k1""###,
+        r###""k2""###,
+        r###""k3""###,
+        r###""k4""###,
+        r###""k5""###,
+        r###""k6""###,
+        r###""k7""###,
     ];
     fn __expected_tokens(__state: i8) -> alloc::vec::Vec<alloc::string::String> {
         __TERMINAL.iter().enumerate().filter_map(|(index, terminal)| {
@@ -122,7 +127,7 @@ mod __parse__P {
         type Token = Token<'input>;
         type TokenIndex = usize;
         type Symbol = __Symbol<'input>;
-        type Success = Vec<&'input str>;
+        type Success = String;
         type StateIndex = i8;
         type Action = i8;
         type ReduceIndex = i8;
@@ -150,7 +155,7 @@ mod __parse__P {
 
         #[inline]
         fn error_action(&self, state: i8) -> i8 {
-            __action(state, 6 - 1)
+            __action(state, 8 - 1)
         }
 
         #[inline]
@@ -224,6 +229,8 @@ mod __parse__P {
             Token(3, _) if true => Some(3),
             Token(4, _) if true => Some(4),
             Token(5, _) if true => Some(5),
+            Token(6, _) if true => Some(6),
+            Token(7, _) if true => Some(7),
             _ => None,
         }
     }
@@ -236,8 +243,8 @@ mod __parse__P {
     ) -> __Symbol<'input>
     {
         #[allow(clippy::manual_range_patterns)]match __token_index {
-            0 | 1 | 2 | 3 | 4 | 5 => match __token {
-                Token(0, __tok0) | Token(1, __tok0) | Token(2, __tok0) | Token(3, __tok0) | Token(4, __tok0) | Token(5, __tok0) if true => __Symbol::Variant0(__tok0),
+            0 | 1 | 2 | 3 | 4 | 5 | 6 | 7 => match __token {
+                Token(0, __tok0) | Token(1, __tok0) | Token(2, __tok0) | Token(3, __tok0) | Token(4, __tok0) | Token(5, __tok0) | Token(6, __tok0) | Token(7, __tok0) if true => __Symbol::Variant0(__tok0),
                 _ => unreachable!(),
             },
             _ => unreachable!(),
@@ -253,66 +260,66 @@ mod __parse__P {
         match __reduce_index {
             0 => {
                 __state_machine::SimulatedReduce::Reduce {
-                    states_to_pop: 2,
+                    states_to_pop: 1,
                     nonterminal_produced: 0,
                 }
             }
             1 => {
                 __state_machine::SimulatedReduce::Reduce {
-                    states_to_pop: 0,
+                    states_to_pop: 1,
                     nonterminal_produced: 0,
                 }
             }
             2 => {
                 __state_machine::SimulatedReduce::Reduce {
                     states_to_pop: 1,
-                    nonterminal_produced: 1,
+                    nonterminal_produced: 0,
                 }
             }
             3 => {
                 __state_machine::SimulatedReduce::Reduce {
                     states_to_pop: 1,
-                    nonterminal_produced: 1,
+                    nonterminal_produced: 0,
                 }
             }
             4 => {
                 __state_machine::SimulatedReduce::Reduce {
                     states_to_pop: 1,
-                    nonterminal_produced: 1,
+                    nonterminal_produced: 0,
                 }
             }
             5 => {
                 __state_machine::SimulatedReduce::Reduce {
                     states_to_pop: 1,
-                    nonterminal_produced: 1,
+                    nonterminal_produced: 0,
                 }
             }
             6 => {
                 __state_machine::SimulatedReduce::Reduce {
                     states_to_pop: 1,
-                    nonterminal_produced: 1,
+                    nonterminal_produced: 0,
                 }
             }
             7 => {
                 __state_machine::SimulatedReduce::Reduce {
                     states_to_pop: 1,
-                    nonterminal_produced: 1,
+                    nonterminal_produced: 0,
                 }
             }
             8 => __state_machine::SimulatedReduce::Accept,
             _ => panic!("invalid reduction index {__reduce_index}")
         }
     }
-    pub struct PParser {
+    pub struct SParser {
         builder: __lalrpop_util::lexer::MatcherBuilder,
         _priv: (),
     }
 
-    impl Default for PParser { fn default() -> Self { Self::new() } }
-    impl PParser {
-        pub fn new() -> PParser {
+    impl Default for SParser { fn default() -> Self { Self::new() } }
+    impl SParser {
+        pub fn new() -> SParser {
             let __builder = super::__intern_token::new_builder();
-            PParser {
+            SParser {
                 builder: __builder,
                 _priv: (),
             }
@@ -324,7 +331,7 @@ mod __parse__P {
         >(
             &self,
             input: &'input str,
-        ) -> Result<Vec<&'input str>, __lalrpop_util::ParseError<usize, Token<'input>, &'static str>>
+        ) -> Result<String, __lalrpop_util::ParseError<usize, Token<'input>, &'static str>>
         {
             let mut __tokens = self.builder.matcher(input);
             __state_machine::Parser::drive(
@@ -378,7 +385,7 @@ mod __parse__P {
         __states: &mut alloc::vec::Vec<i8>,
         __symbols: &mut alloc::vec::Vec<(usize,__Symbol<'input>,usize)>,
         _: core::marker::PhantomData<(&'input ())>,
-    ) -> Option<Result<Vec<&'input str>,__lalrpop_util::ParseError<usize, Token<'input>, &'static str>>>
+    ) -> Option<Result<String,__lalrpop_util::ParseError<usize, Token<'input>, &'static str>>>
     {
         let (__pop_states, __nonterminal) = match __action {
             0 => {
@@ -406,7 +413,7 @@ mod __parse__P {
                 __reduce7(input, __lookahead_start, __symbols, core::marker::PhantomData::<(&())>)
             }
             8 => {
-                // __P = P => ActionFn(0);
+                // __S = S => ActionFn(0);
                 let __sym0 = __pop_Variant1(__symbols);
                 let __start = __sym0.0.clone();
                 let __end = __sym0.2.clone();
@@ -430,7 +437,7 @@ mod __parse__P {
       'input,
     >(
         __symbols: &mut alloc::vec::Vec<(usize,__Symbol<'input>,usize)>
-    ) -> (usize, Vec<&'input str>, usize)
+    ) -> (usize, String, usize)
      {
         match __symbols.pop() {
             Some((__l, __Symbol::Variant1(__v), __r)) => (__l, __v, __r),
@@ -457,15 +464,13 @@ mod __parse__P {
         _: core::marker::PhantomData<(&'input ())>,
     ) -> (usize, usize)
     {
-        // P = P, W => ActionFn(1);
-        assert!(__symbols.len() >= 2);
-        let __sym1 = __pop_Variant0(__symbols);
-        let __sym0 = __pop_Variant1(__symbols);
+        // S = "k0" => ActionFn(1);
+        let __sym0 = __pop_Variant0(__symbols);
         let __start = __sym0.0.clone();
-        let __end = __sym1.2.clone();
-        let __nt = super::__action1::<>(input, __sym0, __sym1);
+        let __end = __sym0.2.clone();
+        let __nt = super::__action1::<>(input, __sym0);
         __symbols.push((__start, __Symbol::Variant1(__nt), __end));
-        (2, 0)
+        (1, 0)
     }
     fn __reduce1<
         'input,
@@ -476,12 +481,13 @@ mod __parse__P {
         _: core::marker::PhantomData<(&'input ())>,
     ) -> (usize, usize)
     {
-        // P =  => ActionFn(2);
-        let __start = __lookahead_start.cloned().or_else(|| __symbols.last().map(|s| s.2.clone())).unwrap_or_default();
-        let __end = __start.clone();
-        let __nt = super::__action2::<>(input, &__start, &__end);
+        // S = "k1" => ActionFn(2);
+        let __sym0 = __pop_Variant0(__symbols);
+        let __start = __sym0.0.clone();
+        let __end = __sym0.2.clone();
+        let __nt = super::__action2::<>(input, __sym0);
         __symbols.push((__start, __Symbol::Variant1(__nt), __end));
-        (0, 0)
+        (1, 0)
     }
     fn __reduce2<
         'input,
@@ -492,13 +498,13 @@ mod __parse__P {
         _: core::marker::PhantomData<(&'input ())>,
     ) -> (usize, usize)
     {
-        // W = r#"[a-z]+"# => ActionFn(3);
+        // S = "k2" => ActionFn(3);
         let __sym0 = __pop_Variant0(__symbols);
         let __start = __sym0.0.clone();
         let __end = __sym0.2.clone();
         let __nt = super::__action3::<>(input, __sym0);
-        __symbols.push((__start, __Symbol::Variant0(__nt), __end));
-        (1, 1)
+        __symbols.push((__start, __Symbol::Variant1(__nt), __end));
+        (1, 0)
     }
     fn __reduce3<
         'input,
@@ -509,13 +515,13 @@ mod __parse__P {
         _: core::marker::PhantomData<(&'input ())>,
     ) -> (usize, usize)
     {
-        // W = r#"[A-Z][a-z]*"# => ActionFn(4);
+        // S = "k3" => ActionFn(4);
         let __sym0 = __pop_Variant0(__symbols);
         let __start = __sym0.0.clone();
         let __end = __sym0.2.clone();
         let __nt = super::__action4::<>(input, __sym0);
-        __symbols.push((__start, __Symbol::Variant0(__nt), __end));
-        (1, 1)
+        __symbols.push((__start, __Symbol::Variant1(__nt), __end));
+        (1, 0)
     }
     fn __reduce4<
         'input,
@@ -526,13 +532,13 @@ mod __parse__P {
         _: core::marker::PhantomData<(&'input ())>,
     ) -> (usize, usize)
     {
-        // W = r#"[0-9]+(\\.[0-9]+)?"# => ActionFn(5);
+        // S = "k4" => ActionFn(5);
         let __sym0 = __pop_Variant0(__symbols);
         let __start = __sym0.0.clone();
         let __end = __sym0.2.clone();
         let __nt = super::__action5::<>(input, __sym0);
-        __symbols.push((__start, __Symbol::Variant0(__nt), __end));
-        (1, 1)
+        __symbols.push((__start, __Symbol::Variant1(__nt), __end));
+        (1, 0)
     }
     fn __reduce5<
         'input,
@@ -543,13 +549,13 @@ mod __parse__P {
         _: core::marker::PhantomData<(&'input ())>,
     ) -> (usize, usize)
     {
-        // W = "if" => ActionFn(6);
+        // S = "k5" => ActionFn(6);
         let __sym0 = __pop_Variant0(__symbols);
         let __start = __sym0.0.clone();
         let __end = __sym0.2.clone();
         let __nt = super::__action6::<>(input, __sym0);
-        __symbols.push((__start, __Symbol::Variant0(__nt), __end));
-        (1, 1)
+        __symbols.push((__start, __Symbol::Variant1(__nt), __end));
+        (1, 0)
     }
     fn __reduce6<
         'input,
@@ -560,13 +566,13 @@ mod __parse__P {
         _: core::marker::PhantomData<(&'input ())>,
     ) -> (usize, usize)
     {
-        // W = "else" => ActionFn(7);
+        // S = "k6" => ActionFn(7);
         let __sym0 = __pop_Variant0(__symbols);
         let __start = __sym0.0.clone();
         let __end = __sym0.2.clone();
         let __nt = super::__action7::<>(input, __sym0);
-        __symbols.push((__start, __Symbol::Variant0(__nt), __end));
-        (1, 1)
+        __symbols.push((__start, __Symbol::Variant1(__nt), __end));
+        (1, 0)
     }
     fn __reduce7<
         'input,
@@ -577,17 +583,17 @@ mod __parse__P {
         _: core::marker::PhantomData<(&'input ())>,
     ) -> (usize, usize)
     {
-        // W = r#"\\p{Han}+"# => ActionFn(8);
+        // S = "k7" => ActionFn(8);
         let __sym0 = __pop_Variant0(__symbols);
         let __start = __sym0.0.clone();
         let __end = __sym0.2.clone();
         let __nt = super::__action8::<>(input, __sym0);
-        __symbols.push((__start, __Symbol::Variant0(__nt), __end));
-        (1, 1)
+        __symbols.push((__start, __Symbol::Variant1(__nt), __end));
+        (1, 0)
     }
 }
 #[allow(unused_imports)]
-pub use self::__parse__P::PParser;
+pub use self::__parse__S::SParser;
 #[rustfmt::skip]
 mod __intern_token {
     #![allow(unused_imports)]
@@ -599,12 +605,14 @@ mod __intern_token {
     extern crate alloc;
     pub fn new_builder() -> __lalrpop_util::lexer::MatcherBuilder {
         let __strs: &[(&str, bool)] = &[
-            ("(?:[0-9]+((?:\\.[0-9]+))?)", false),
-            ("(?:[A-Z][a-z]*)", false),
-            ("[a-z]+", false),
-            ("[⺀-⺙⺛-⻳⼀-⿕々〇〡-〩〸-〻㐀-䶿一-鿿豈-舘並-龎𖿢𖿣\u{16ff0}\u{16ff1}𠀀-𪛟𪜀-𫜹𫝀-𫠝𫠠-𬺡𬺰-𮯠𮯰-𮹝丽-𪘀𰀀-𱍊𱍐-𲎯]+", false),
-            ("(?:else)", false),
-            ("(?:if)", false),
+            ("(?:k0)", false),
+            ("(?:k1)", false),
+            ("(?:k2)", false),
+            ("(?:k3)", false),
+            ("(?:k4)", false),
+            ("(?:k5)", false),
+            ("(?:k6)", false),
+            ("(?:k7)", false),
             (r"\s+", true),
         ];
         __lalrpop_util::lexer::MatcherBuilder::new(__strs.iter().copied()).unwrap()
@@ -618,8 +626,8 @@ fn __action0<
     'input,
 >(
     input: &'input str,
-    (_, __0, _): (usize, Vec<&'input str>, usize),
-) -> Vec<&'input str>
+    (_, __0, _): (usize, String, usize),
+) -> String
 {
     __0
 }
@@ -630,11 +638,10 @@ fn __action1<
     'input,
 >(
     input: &'input str,
-    (_, mut v, _): (usize, Vec<&'input str>, usize),
-    (_, w, _): (usize, &'input str, usize),
-) -> Vec<&'input str>
+    (_, __0, _): (usize, &'input str, usize),
+) -> String
 {
-    { v.push(w); v }
+    [{ let r#type = [1, 2, 3]; r#type[(0 + 1)].to_string() }, { fn f<'a>(x: &'a str) -> &'a str { x } f("q").to_string() }].concat()
 }
 
 #[allow(unused_variables)]
@@ -643,11 +650,10 @@ fn __action2<
     'input,
 >(
     input: &'input str,
-    __lookbehind: &usize,
-    __lookahead: &usize,
-) -> Vec<&'input str>
+    (_, __0, _): (usize, &'input str, usize),
+) -> String
 {
-    Vec::new()
+    "\n".to_string()
 }
 
 #[allow(unused_variables)]
@@ -657,9 +663,9 @@ fn __action3<
 >(
     input: &'input str,
     (_, __0, _): (usize, &'input str, usize),
-) -> &'input str
+) -> String
 {
-    __0
+    { let r#type = [1, 2, 3]; r#type[(0 + 1)].to_string() }
 }
 
 #[allow(unused_variables)]
@@ -669,9 +675,9 @@ fn __action4<
 >(
     input: &'input str,
     (_, __0, _): (usize, &'input str, usize),
-) -> &'input str
+) -> String
 {
-    __0
+    { fn f<'a>(x: &'a str) -> &'a str { x } f("q").to_string() }
 }
 
 #[allow(unused_variables)]
@@ -681,9 +687,9 @@ fn __action5<
 >(
     input: &'input str,
     (_, __0, _): (usize, &'input str, usize),
-) -> &'input str
+) -> String
 {
-    __0
+    { let r#type = [1, 2, 3]; r#type[(0 + 1)].to_string() }
 }
 
 #[allow(unused_variables)]
@@ -693,9 +699,10 @@ fn __action6<
 >(
     input: &'input str,
     (_, __0, _): (usize, &'input str, usize),
-) -> &'input str
+) -> String
 {
-    __0
+    match ({ /* } , ; */ let v = vec![(1, 2), (3, 4)]; // }
+ v[1].0.to_string() }, '\\'.to_string()) { (a, b) => { let mut s = a; s.push_str(&b); s } }
 }
 
 #[allow(unused_variables)]
@@ -705,9 +712,9 @@ fn __action7<
 >(
     input: &'input str,
     (_, __0, _): (usize, &'input str, usize),
-) -> &'input str
+) -> String
 {
-    __0
+    r#";(}"/*"#.to_string()
 }
 
 #[allow(unused_variables)]
@@ -717,9 +724,9 @@ fn __action8<
 >(
     input: &'input str,
     (_, __0, _): (usize, &'input str, usize),
-) -> &'input str
+) -> String
 {
-    __0
+    { let (x, y) = ("{\n".to_string(), r#"}a/*"#.to_string()); x + &y }
 }
 
 #[allow(clippy::type_complexity, dead_code)]
